@@ -34,7 +34,7 @@ func lifecycleKnobs() *CoreKnobs {
 
 func baseScenario(prop string, seed uint64) (*Scenario, *R) {
 	r := NewR(seed, 1)
-	sc := &Scenario{Prop: prop, Seed: seed, Observe: true, RunForMs: 20000, EndShutdown: true, BoundMs: 3600 * 1000}
+	sc := &Scenario{Prop: prop, Seed: seed, Observe: true, RunForMs: 20000, EndShutdown: true, BoundMs: 3600 * 1000, QuietMs: 45000}
 	return sc, r
 }
 
